@@ -206,4 +206,92 @@ theorem Coords.points_linmap (c : Coords) (M : List (List Rat)) (hM : M ≠ []) 
     rw [← this]
     simp [Coords.points]
 
+/-! ### the operations preserve well-formedness, dimension and kind (needed to chain the single-step theorems) -/
+
+theorem Coords.ndim_scale (c : Coords) (f : List Rat) (h : f.length = c.ndim) : (c.scale f).ndim = c.ndim := by
+  cases c <;> simp_all [Coords.scale, Coords.ndim]
+
+theorem Coords.ndim_shift (c : Coords) (b : List Rat) (h : b.length = c.ndim) : (c.shift b).ndim = c.ndim := by
+  cases c <;> simp_all [Coords.shift, Coords.ndim]
+
+theorem Coords.ndim_reverse (c : Coords) : c.reverse.ndim = c.ndim := by
+  cases c <;> simp [Coords.reverse, Coords.ndim]
+
+theorem Coords.ndim_linmap (c : Coords) (M : List (List Rat)) : (c.linmap M).ndim = M.length := by
+  simp [Coords.linmap, Coords.ndim]
+
+theorem Coords.kind_scale (c : Coords) (f : List Rat) : (c.scale f).kind = c.kind := by
+  cases c <;> rfl
+theorem Coords.kind_shift (c : Coords) (f : List Rat) : (c.shift f).kind = c.kind := by
+  cases c <;> rfl
+theorem Coords.kind_reverse (c : Coords) : c.reverse.kind = c.kind := by
+  cases c <;> rfl
+
+theorem zipWith_ne_nil {α β γ} (k : α → β → γ) : ∀ (a : List α) (f : List β), a ≠ [] → f.length = a.length →
+    List.zipWith k a f ≠ []
+  | [], _, h, _ => absurd rfl h
+  | _ :: _, [], _, h => by simp at h
+  | _ :: _, _ :: _, _, _ => by simp
+
+theorem rect_zipWith_map (k : Rat → Rat → Rat) : ∀ (c : List (List Rat)) (f : List Rat), f.length = c.length →
+    rect c = true → rect (List.zipWith (fun col fi => col.map (k fi)) c f) = true
+  | [], _, _, _ => by simp [rect]
+  | c0 :: cs, [], h, _ => by simp at h
+  | c0 :: cs, f0 :: fs, h, hr => by
+    rw [rect_iff] at hr
+    simp only [List.zipWith_cons_cons, rect_iff, List.length_map]
+    intro d hd
+    obtain ⟨i, hi, rfl⟩ := List.getElem_of_mem hd
+    simp only [List.getElem_zipWith, List.length_map]
+    exact hr _ (List.getElem_mem _)
+
+theorem Coords.WF_scale (c : Coords) (f : List Rat) (h : f.length = c.ndim) (hw : c.WF) : (c.scale f).WF := by
+  cases c with
+  | regular a =>
+    simp only [Coords.WF, Coords.scale, Coords.ndim] at *
+    exact zipWith_ne_nil _ _ _ hw h
+  | separated a =>
+    simp only [Coords.WF, Coords.scale, Coords.ndim] at *
+    exact zipWith_ne_nil _ _ _ hw h
+  | unstructured a =>
+    simp only [Coords.WF, Coords.scale, Coords.ndim] at *
+    refine ⟨?_, rect_zipWith_map (fun fi x => x * fi) a f h hw.2⟩
+    exact zipWith_ne_nil _ _ _ hw.1 h
+
+theorem Coords.WF_shift (c : Coords) (b : List Rat) (h : b.length = c.ndim) (hw : c.WF) : (c.shift b).WF := by
+  cases c with
+  | regular a =>
+    simp only [Coords.WF, Coords.shift, Coords.ndim] at *
+    exact zipWith_ne_nil _ _ _ hw h
+  | separated a =>
+    simp only [Coords.WF, Coords.shift, Coords.ndim] at *
+    exact zipWith_ne_nil _ _ _ hw h
+  | unstructured a =>
+    simp only [Coords.WF, Coords.shift, Coords.ndim] at *
+    refine ⟨?_, rect_zipWith_map (fun bi x => x + bi) a b h hw.2⟩
+    exact zipWith_ne_nil _ _ _ hw.1 h
+
+theorem Coords.WF_reverse (c : Coords) (hw : c.WF) : c.reverse.WF := by
+  cases c with
+  | regular a => simpa [Coords.WF, Coords.reverse] using hw
+  | separated a => simpa [Coords.WF, Coords.reverse] using hw
+  | unstructured a =>
+    simp only [Coords.WF, Coords.reverse] at *
+    refine ⟨by simpa using hw.1, ?_⟩
+    cases a with
+    | nil => simp [rect]
+    | cons c0 cs =>
+      have := (rect_iff c0 cs).mp hw.2
+      simp only [List.map_cons, rect_iff, List.length_reverse]
+      intro d hd
+      obtain ⟨d', hd', rfl⟩ := List.mem_map.mp hd
+      simpa using this d' hd'
+
+theorem Coords.WF_linmap (c : Coords) (M : List (List Rat)) (hM : M ≠ []) : (c.linmap M).WF := by
+  simp only [Coords.WF, Coords.linmap]
+  refine ⟨by simpa using hM, ?_⟩
+  cases M with
+  | nil => exact absurd rfl hM
+  | cons r M => simp [rect]
+
 end HcipyVerif.Grid
